@@ -35,8 +35,8 @@ func C04(r *core.Report) {
 		}
 	}
 	r.Floor("C04.R1", 12)
-	r.Floor("C04.R2", 8)
-	r.Floor("C04.R3", 3)
+	r.Floor("C04.R2", 4)
+	r.Floor("C04.R3", 2)
 	r.Floor("C04.R4", 8)
 	r.Floor("C04.R5", 9)
 	c04ReaderCapsCoverWriter(r)
@@ -47,11 +47,11 @@ func C04(r *core.Report) {
 	c04HashOfTheKeyRead(r)
 	c04SpillFileFlags(r)
 	r.Floor("C04.R11", 2)
-	r.Floor("C04.R10", 3)
-	r.Floor("C04.R9", 3)
-	r.Floor("C04.R8", 3)
-	r.Floor("C04.R7", 9)
-	r.Floor("C04.R6", 2)
+	r.Floor("C04.R10", 2)
+	r.Floor("C04.R9", 2)
+	r.Floor("C04.R8", 2)
+	r.Floor("C04.R7", 5)
+	r.Floor("C04.R6", 1)
 }
 
 func c04Funcs(p *core.Prog) []*core.Func {
